@@ -780,3 +780,587 @@ Proof.
     rewrite insert_last_back by assumption.
     rewrite <- !app_assoc. reflexivity.
 Qed.
+
+(* -- (G) the rows at or below the path of a node are the rows of its subtree -------------------- *)
+
+Lemma fget_rows : forall p pre (f : forest) P x,
+  wf_f f -> fget p f = Some x -> fpath pre p f = Some P ->
+  exists P0, P = P0 ++ [tname x] /\ sub_rows (frows pre f) P = rows_from P0 x.
+Proof.
+  induction p as [|i p IH]; intros pre f P x Hwf Hg HP; [discriminate|].
+  cbn [fget] in Hg. cbn [fpath] in HP. destruct (nth_error f i) as [t|] eqn:Et; [|discriminate].
+  apply nth_error_split_at in Et as [a [b [-> <-]]].
+  apply wf_f_mid in Hwf as [Ht [Hab Hne]].
+  destruct (fpath_ext _ _ _ _ HP) as [rest [HPe Hrl]]. rewrite <- app_assoc in HPe. cbn [app] in HPe.
+  unfold sub_rows. rewrite !frows_app, frows_cons, !filter_app.
+  assert (Ha : filter (under P) (frows pre a) = []).
+  { apply filter_none. intros r Hr. rewrite HPe.
+    eapply frows_other_not_under; [|exact Hr]. intros u Hu. apply Hne. apply in_or_app. left; exact Hu. }
+  assert (Hb : filter (under P) (frows pre b) = []).
+  { apply filter_none. intros r Hr. rewrite HPe.
+    eapply frows_other_not_under; [|exact Hr]. intros u Hu. apply Hne. apply in_or_app. right; exact Hu. }
+  rewrite Ha, Hb, app_nil_r. cbn [app]. destruct p as [|j p].
+  - inversion Hg; subst x. cbn in HP. inversion HP; subst P. exists pre. split; [reflexivity|].
+    apply filter_all. intros r Hr. apply rows_self_under. exact Hr.
+  - pose proof (wf_t_kids _ Ht) as Hk.
+    destruct (IH _ _ _ _ Hk Hg HP) as [P0 [HP0 Hsub]]. exists P0. split; [exact HP0|].
+    rewrite rows_from_eq. cbn [filter]. unfold under at 1. cbn [rpath fst].
+    rewrite pfx_long by (rewrite HPe, !app_length; cbn [length] in *; lia).
+    exact Hsub.
+Qed.
+
+Lemma fget_fpath p : forall pre (f : forest) x, fget p f = Some x -> exists P, fpath pre p f = Some P.
+Proof.
+  induction p as [|i p IH]; intros pre f x Hg; [discriminate|].
+  cbn [fget] in Hg. cbn [fpath]. destruct (nth_error f i) as [t|]; [|discriminate].
+  destruct p as [|j p]; [exists (pre ++ [tname t]); reflexivity|]. eapply IH. exact Hg.
+Qed.
+
+Lemma fkids_fget q : forall (f : forest), q <> [] -> fkids q f = option_map tkids (fget q f).
+Proof.
+  induction q as [|i q IH]; intros f Hq; [congruence|]. cbn [fkids fget].
+  destruct (nth_error f i) as [t|]; [|reflexivity]. destruct q as [|j q]; [reflexivity|].
+  apply IH. discriminate.
+Qed.
+
+Lemma fpath_fget p : forall pre (f : forest) P, p <> [] -> fpath pre p f = Some P -> exists x, fget p f = Some x.
+Proof.
+  induction p as [|i p IH]; intros pre f P Hp HP; [congruence|].
+  cbn [fget]. cbn [fpath] in HP. destruct (nth_error f i) as [t|]; [|discriminate].
+  destruct p as [|j p]; [exists t; reflexivity|]. eapply IH; [discriminate|exact HP].
+Qed.
+
+(* -- references after a removal ----------------------------------------------------------------- *)
+
+Lemma nth_error_del_nth_ge {A} (l : list A) i j : i < j -> nth_error (del_nth i l) (Nat.pred j) = nth_error l j.
+Proof.
+  revert i j; induction l as [|x l IH]; intros i j Hij; cbn.
+  - destruct j; [lia|]. cbn. destruct j; reflexivity.
+  - destruct i as [|i]; destruct j as [|j]; try lia; cbn; [reflexivity|].
+    destruct j as [|j]; [lia|]. cbn. apply (IH i (S j)). lia.
+Qed.
+
+Lemma adj_none x : forall q, x <> [] -> adj x q = None -> is_prefix x q = true.
+Proof.
+  induction x as [|i x IH]; intros q Hx H; [congruence|].
+  destruct q as [|j q]; [cbn in H; destruct x; discriminate|].
+  cbn [adj] in H. destruct x as [|k x].
+  - destruct (Nat.eqb j i) eqn:E; [|discriminate]. apply Nat.eqb_eq in E. subst. cbn. rewrite Nat.eqb_refl. reflexivity.
+  - destruct (Nat.eqb j i) eqn:E; [|discriminate]. apply Nat.eqb_eq in E. subst.
+    destruct (adj (k :: x) q) eqn:Ea; [discriminate|].
+    cbn [is_prefix]. rewrite Nat.eqb_refl. apply IH; [discriminate|exact Ea].
+Qed.
+
+Lemma is_prefix_cons i x j q : is_prefix (i :: x) (j :: q) = Nat.eqb i j && is_prefix x q.
+Proof. reflexivity. Qed.
+
+Lemma fpath_adj : forall x q pre (f : forest) sub,
+  fget x f = Some sub -> is_prefix x q = false ->
+  fpath pre (adj' x q) (fremove x f) = fpath pre q f.
+Proof.
+  induction x as [|i x IH]; intros q pre f sub Hg Hpq; [discriminate|].
+  destruct q as [|j q]; [unfold adj'; cbn; destruct x; reflexivity|].
+  cbn [fget] in Hg. destruct (nth_error f i) as [t|] eqn:Et; [|discriminate].
+  rewrite is_prefix_cons in Hpq. unfold adj'. cbn [adj fremove]. destruct x as [|k x].
+  - cbn [is_prefix] in Hpq. rewrite andb_true_r in Hpq. rewrite Nat.eqb_sym in Hpq. rewrite Hpq.
+    cbn [fpath]. apply Nat.eqb_neq in Hpq.
+    destruct (Nat.ltb i j) eqn:El.
+    + apply Nat.ltb_lt in El. rewrite nth_error_del_nth_ge by exact El. reflexivity.
+    + apply Nat.ltb_ge in El. rewrite nth_error_del_nth_lt by lia. reflexivity.
+  - destruct (Nat.eqb j i) eqn:Eji.
+    + apply Nat.eqb_eq in Eji. subst j. rewrite Nat.eqb_refl in Hpq. cbn [andb] in Hpq.
+      destruct (adj (k :: x) q) as [r|] eqn:Ea.
+      * cbn [option_map fpath]. rewrite nth_error_upd_nth, Nat.eqb_refl, Et. cbn [option_map].
+        rewrite tname_set_kids. destruct t as [g n a ks]. cbn [set_kids tkids tname].
+        specialize (IH q (pre ++ [n]) ks sub Hg Hpq). unfold adj' in IH. rewrite Ea in IH. exact IH.
+      * apply adj_none in Ea; [congruence|discriminate].
+    + cbn [fpath]. rewrite nth_error_upd_nth, Eji. reflexivity.
+Qed.
+
+(* a node that is neither inside the removed subtree nor an ancestor of it keeps its subtree *)
+Lemma fget_adj : forall x q (f : forest) sub,
+  fget x f = Some sub -> is_prefix x q = false -> is_prefix q x = false ->
+  fget (adj' x q) (fremove x f) = fget q f.
+Proof.
+  induction x as [|i x IH]; intros q f sub Hg Hpq Hqp; [discriminate|].
+  destruct q as [|j q]; [discriminate|].
+  cbn [fget] in Hg. destruct (nth_error f i) as [t|] eqn:Et; [|discriminate].
+  rewrite is_prefix_cons in Hpq, Hqp. unfold adj'. cbn [adj fremove]. destruct x as [|k x].
+  - cbn [is_prefix] in Hpq. rewrite andb_true_r in Hpq. rewrite Nat.eqb_sym in Hpq. rewrite Hpq.
+    cbn [fget]. apply Nat.eqb_neq in Hpq.
+    destruct (Nat.ltb i j) eqn:El.
+    + apply Nat.ltb_lt in El. rewrite nth_error_del_nth_ge by exact El. reflexivity.
+    + apply Nat.ltb_ge in El. rewrite nth_error_del_nth_lt by lia. reflexivity.
+  - destruct (Nat.eqb j i) eqn:Eji.
+    + apply Nat.eqb_eq in Eji. subst j. rewrite Nat.eqb_refl in Hpq. cbn [andb] in Hpq, Hqp.
+      destruct q as [|j' q']; [discriminate|].
+      destruct (adj (k :: x) (j' :: q')) as [r|] eqn:Ea.
+      * cbn [option_map fget]. rewrite nth_error_upd_nth, Nat.eqb_refl, Et. cbn [option_map].
+        destruct t as [g n a ks]. cbn [set_kids tkids].
+        specialize (IH (j' :: q') ks sub Hg Hpq Hqp). unfold adj' in IH. rewrite Ea in IH.
+        destruct r as [|r0 r].
+        -- cbn [adj] in Ea. destruct x; [destruct (Nat.eqb j' k); discriminate|].
+           destruct (Nat.eqb j' k); [destruct (adj _ _); discriminate|discriminate].
+        -- exact IH.
+      * apply adj_none in Ea; [congruence|discriminate].
+    + cbn [fget]. rewrite nth_error_upd_nth, Eji. reflexivity.
+Qed.
+
+Lemma NoDup_app_snoc {A} (l : list A) x : NoDup l -> ~ In x l -> NoDup (l ++ [x]).
+Proof.
+  induction l as [|y l IH]; intros Hn Hx; cbn; [constructor; [intros []|constructor]|].
+  inversion Hn as [|? ? Hy Hn']; subst. constructor.
+  - intros Hin. apply in_app_or in Hin as [Hin|[E|[]]]; [contradiction|]. subst. apply Hx. left; reflexivity.
+  - apply IH; [exact Hn'|]. intros Hin. apply Hx. right; exact Hin.
+Qed.
+
+(* -- well-formedness is kept -------------------------------------------------------------------- *)
+
+Lemma map_tname_upd_nth i (g : tree -> tree) (f : forest) :
+  (forall t, tname (g t) = tname t) -> map tname (upd_nth i g f) = map tname f.
+Proof.
+  intros Hg. revert i; induction f as [|t f IH]; intros i; cbn; [reflexivity|].
+  destruct i; cbn; [rewrite Hg; reflexivity|rewrite IH; reflexivity].
+Qed.
+
+Lemma Forall_upd_nth (P : tree -> Prop) i (g : tree -> tree) (f : forest) :
+  (forall t, P t -> P (g t)) -> Forall P f -> Forall P (upd_nth i g f).
+Proof.
+  intros Hg H. revert i; induction H as [|t f Ht Hf IH]; intros i; cbn; [constructor|].
+  destruct i; constructor; auto.
+Qed.
+
+Lemma wf_f_del_nth i (f : forest) : wf_f f -> wf_f (del_nth i f).
+Proof.
+  intros [Hn Hf]. revert i; induction f as [|t f IH]; intros i; cbn; [split; assumption|].
+  cbn [map] in Hn. inversion Hn as [|? ? Hnotin Hn']; subst. inversion Hf as [|? ? Ht Hf']; subst.
+  destruct i; [split; assumption|].
+  destruct (IH Hn' Hf' i) as [H1 H2]. split.
+  - cbn [map]. constructor; [|exact H1]. intros Hin. apply Hnotin.
+    clear -Hin. revert i Hin; induction f as [|u f IHf]; intros i Hin; cbn in *; [exact Hin|].
+    destruct i; [right; exact Hin|]. destruct Hin as [E|Hin]; [left; exact E|right; eapply IHf; exact Hin].
+  - constructor; assumption.
+Qed.
+
+Lemma wf_fremove : forall p (f : forest), wf_f f -> wf_f (fremove p f).
+Proof.
+  induction p as [|i p IH]; intros f Hwf; [exact Hwf|]. cbn [fremove]. destruct p as [|j p].
+  - apply wf_f_del_nth. exact Hwf.
+  - destruct Hwf as [Hn Hf]. split.
+    + rewrite map_tname_upd_nth; [exact Hn|intros; apply tname_set_kids].
+    + apply Forall_upd_nth; [|exact Hf]. intros t Ht. apply wf_t_set_kids. apply IH. apply wf_t_kids. exact Ht.
+Qed.
+
+Lemma wf_fappend : forall q (f : forest) x ks,
+  wf_f f -> wf_t x -> q <> [] -> fkids q f = Some ks -> (forall k, In k ks -> tname k <> tname x) ->
+  wf_f (fappend q x f).
+Proof.
+  induction q as [|i q IH]; intros f x ks Hwf Hx Hq Hk Hfresh; [congruence|].
+  cbn [fkids] in Hk. destruct (nth_error f i) as [t|] eqn:Et; [|discriminate].
+  apply nth_error_split_at in Et as [a [b [-> <-]]]. cbn [fappend]. rewrite upd_nth_mid.
+  destruct Hwf as [Hn Hf]. split.
+  - rewrite map_app in *. cbn [map] in *. rewrite tname_set_kids. exact Hn.
+  - rewrite Forall_app in *. destruct Hf as [Hfa Hfb]. split; [exact Hfa|].
+    inversion Hfb as [|? ? Ht Hfb']; subst. constructor; [|exact Hfb'].
+    apply wf_t_set_kids. destruct q as [|j q].
+    + cbn in Hk. inversion Hk; subst ks. cbn [fappend]. destruct (wf_t_kids _ Ht) as [Hkn Hkf]. split.
+      * rewrite map_app. cbn [map]. apply NoDup_app_snoc; [exact Hkn|].
+        intros Hin. apply in_map_iff in Hin as [k [Hk1 Hk2]]. apply (Hfresh k Hk2). exact Hk1.
+      * rewrite Forall_app. split; [exact Hkf|constructor; [exact Hx|constructor]].
+    + eapply IH; [apply wf_t_kids; exact Ht|exact Hx|discriminate|exact Hk|exact Hfresh].
+Qed.
+
+(* ============================================================================================== *)
+(* Part 3.  One tree: the tree object handed to the call is piece 0 of the forest.                *)
+
+Definition t_remove (p : ref) (t : tree) : tree := set_kids t (fremove p (tkids t)).
+Definition t_append (q : ref) (x : tree) (t : tree) : tree := set_kids t (fappend q x (tkids t)).
+Definition tpath (t : tree) (q : ref) : option (list str) := fpath [tname t] q (tkids t).
+Definition tget (t : tree) (p : ref) : option tree := fget p (tkids t).
+
+Lemma rows_eq t : rows t = ([tname t], ttag t, tattrs t) :: frows [tname t] (tkids t).
+Proof. unfold rows. rewrite rows_from_eq. reflexivity. Qed.
+
+Lemma tkids_set_kids t ks : tkids (set_kids t ks) = ks.
+Proof. destruct t; reflexivity. Qed.
+Lemma ttag_set_kids t ks : ttag (set_kids t ks) = ttag t.
+Proof. destruct t; reflexivity. Qed.
+Lemma tattrs_set_kids t ks : tattrs (set_kids t ks) = tattrs t.
+Proof. destruct t; reflexivity. Qed.
+
+Lemma tpath_ext t p P : tpath t p = Some P -> exists rest, P = tname t :: rest /\ length rest = length p.
+Proof. unfold tpath. intros H. apply fpath_ext in H as [rest [-> Hl]]. exists rest. split; [reflexivity|exact Hl]. Qed.
+
+Lemma rows_t_remove t p PX :
+  wf_t t -> p <> [] -> tpath t p = Some PX -> rows (t_remove p t) = minus (rows t) PX.
+Proof.
+  intros Hwf Hp HP. unfold t_remove. rewrite !rows_eq, tname_set_kids, ttag_set_kids, tattrs_set_kids, tkids_set_kids.
+  unfold minus. cbn [filter]. unfold under at 1. cbn [rpath fst].
+  destruct (tpath_ext _ _ _ HP) as [rest [HPe Hl]].
+  rewrite pfx_long by (rewrite HPe; cbn [length]; destruct p; [congruence|cbn in Hl; lia]).
+  cbn [negb]. f_equal. apply frows_fremove; [apply wf_t_kids; exact Hwf|exact Hp|exact HP].
+Qed.
+
+Lemma rows_t_append t q x PQ :
+  wf_t t -> tpath t q = Some PQ -> rows (t_append q x t) = insert_last (rows t) PQ (rows_from PQ x).
+Proof.
+  intros Hwf HP. unfold t_append. rewrite !rows_eq, tname_set_kids, ttag_set_kids, tattrs_set_kids, tkids_set_kids.
+  destruct q as [|i q].
+  - unfold tpath in HP. cbn in HP. inversion HP; subst PQ. cbn [fappend]. rewrite frows_app. cbn [frows flat_map].
+    rewrite app_nil_r.
+    rewrite insert_last_all; [reflexivity|discriminate|].
+    intros r [<-|Hr]; [unfold under; cbn; rewrite str_eqb_refl; reflexivity|].
+    apply frows_under in Hr as [u [rs [_ Hrs]]]. unfold under. rewrite Hrs. apply pfx_app.
+  - assert (Hq : i :: q <> []) by discriminate.
+    rewrite (frows_fappend _ _ _ _ x (wf_t_kids _ Hwf) Hq HP).
+    destruct (fpath_row _ _ _ _ Hq HP) as [r [Hr Hrp]].
+    change (([tname t], ttag t, tattrs t) :: frows [tname t] (tkids t))
+      with ([([tname t], ttag t, tattrs t)] ++ frows [tname t] (tkids t)).
+    rewrite insert_last_front; [reflexivity|].
+    eapply existsb_true; [exact Hr|]. unfold under. rewrite Hrp. apply pfx_refl.
+Qed.
+
+Lemma wf_t_remove t p : wf_t t -> wf_t (t_remove p t).
+Proof. intros H. apply wf_t_set_kids. apply wf_fremove. apply wf_t_kids. exact H. Qed.
+
+Lemma fkids_cons0 q (t : tree) rest : fkids (0 :: q) (t :: rest) = fkids q (tkids t).
+Proof. reflexivity. Qed.
+
+Lemma fget_cons0 q (t : tree) rest : q <> [] -> fget (0 :: q) (t :: rest) = fget q (tkids t).
+Proof. intros H. cbn. destruct q; [congruence|reflexivity]. Qed.
+
+Lemma fremove_cons0 p (t : tree) rest : p <> [] -> fremove (0 :: p) (t :: rest) = t_remove p t :: rest.
+Proof. intros H. cbn [fremove]. destruct p; [congruence|reflexivity]. Qed.
+
+Lemma fappend_cons0 q x (t : tree) rest : fappend (0 :: q) x (t :: rest) = t_append q x t :: rest.
+Proof. reflexivity. Qed.
+
+Lemma fkids_of_fpath q : forall pre (f : forest) P, fpath pre q f = Some P -> exists ks, fkids q f = Some ks.
+Proof.
+  induction q as [|i q IH]; intros pre f P H; cbn in *; [exists f; reflexivity|].
+  destruct (nth_error f i) as [t|]; [|discriminate]. eapply IH. exact H.
+Qed.
+
+Lemma dup_child_false nm skip ks : (forall k, In k ks -> tname k <> nm) -> forall i, dup_child nm skip i ks = false.
+Proof.
+  induction ks as [|k ks IH]; intros H i; cbn; [reflexivity|].
+  destruct (str_eqb (tname k) nm) eqn:E.
+  - apply str_eqb_eq in E. exfalso. apply (H k (or_introl eq_refl)). exact E.
+  - cbn. apply IH. intros k' Hk'. apply H. right; exact Hk'.
+Qed.
+
+Lemma adj'_cons0 p q : p <> [] -> is_prefix p q = false -> adj' (0 :: p) (0 :: q) = 0 :: adj' p q.
+Proof.
+  intros Hp Hpq. unfold adj'. cbn [adj]. destruct p as [|j p]; [congruence|]. cbn [Nat.eqb].
+  destruct (adj (j :: p) q) eqn:E; [reflexivity|]. apply adj_none in E; [congruence|discriminate].
+Qed.
+
+(* x.parent = y inside one tree: remove at p, append at q *)
+Definition t_move (p q : ref) (x : tree) (t : tree) : tree := t_append (adj' p q) x (t_remove p t).
+
+Lemma move_in_tree nr t rest p q x ks :
+  p <> [] -> tget t p = Some x -> is_prefix p q = false ->
+  fkids q (tkids t) = Some ks -> (forall k, In k ks -> tname k <> tname x) ->
+  (exists PQ, tpath t q = Some PQ) ->
+  exists trk, move nr (t :: rest) (0 :: p) (Some (0 :: q)) = MvOk (t_move p q x t :: rest) trk.
+Proof.
+  intros Hp Hx Hpq Hks Hfresh [PQ HPQ]. unfold move.
+  rewrite fget_cons0 by exact Hp. unfold tget in Hx. rewrite Hx.
+  rewrite is_prefix_cons. cbn [Nat.eqb andb]. rewrite Hpq.
+  rewrite fkids_cons0, Hks. rewrite dup_child_false by exact Hfresh.
+  assert (Hprot : protected nr (0 :: p) = false) by (destruct p; [congruence|reflexivity]).
+  rewrite Hprot. rewrite fremove_cons0 by exact Hp. rewrite adj'_cons0 by assumption.
+  rewrite fkids_cons0. unfold t_remove at 1. rewrite tkids_set_kids.
+  assert (HPQ' : fpath [tname t] (adj' p q) (fremove p (tkids t)) = Some PQ).
+  { unfold tpath in HPQ. rewrite (fpath_adj _ _ _ _ _ Hx Hpq). exact HPQ. }
+  destruct (fkids_of_fpath _ _ _ _ HPQ') as [ks1 Hks1]. rewrite Hks1.
+  rewrite fappend_cons0. eexists. reflexivity.
+Qed.
+
+Lemma rows_t_move t p q x PX PQ :
+  wf_t t -> p <> [] -> tget t p = Some x -> is_prefix p q = false ->
+  tpath t p = Some PX -> tpath t q = Some PQ ->
+  rows (t_move p q x t) = insert_last (minus (rows t) PX) PQ (rows_from PQ x).
+Proof.
+  intros Hwf Hp Hx Hpq HPX HPQ. unfold t_move.
+  rewrite (rows_t_append _ _ _ PQ); [|apply wf_t_remove; exact Hwf|].
+  - rewrite (rows_t_remove _ _ PX) by assumption. reflexivity.
+  - unfold tpath, t_remove. rewrite tname_set_kids, tkids_set_kids.
+    unfold tget in Hx. rewrite (fpath_adj _ _ _ _ _ Hx Hpq). exact HPQ.
+Qed.
+
+(* x.parent = None for a node below the root *)
+Lemma detach_in_tree nr t rest p x :
+  p <> [] -> tget t p = Some x ->
+  move nr (t :: rest) (0 :: p) None = MvOk ((t_remove p t :: rest) ++ [x]) (track (0 :: p) [S (length rest)]).
+Proof.
+  intros Hp Hx. unfold move. rewrite fget_cons0 by exact Hp. unfold tget in Hx. rewrite Hx.
+  destruct p as [|j p]; [congruence|]. rewrite fremove_cons0 by discriminate. reflexivity.
+Qed.
+
+(* ============================================================================================== *)
+(* Part 4.  Rows of the decision table (DESIGN.md section 7, "C08"), on the references layer.       *)
+
+Record plain_shift (c : cfg) : Prop := {
+  ps_copy : c_copy c = false;
+  ps_mc : f_mc (c_fl c) = false;
+  ps_ml : f_ml (c_fl c) = false;
+  ps_dc : f_dc (c_fl c) = false }.
+
+(* the plain attach step: from_node.parent = to_node *)
+Lemma attach_plain_shift c t rest p q x ks :
+  plain_shift c ->
+  p <> [] -> tget t p = Some x -> is_prefix p q = false ->
+  fkids q (tkids t) = Some ks -> (forall k, In k ks -> tname k <> tname x) ->
+  (exists PQ, tpath t q = Some PQ) ->
+  attach c false (t :: rest) (0 :: p) (Some (0 :: q)) = (t_move p q x t :: rest, None).
+Proof.
+  intros [Hc Hmc Hml Hdc] Hp Hx Hpq Hks Hfresh HPQ. unfold attach.
+  rewrite Hc, Hml, Hdc. cbn [orb andb].
+  destruct (move_in_tree (nroots c) t rest p q x ks Hp Hx Hpq Hks Hfresh HPQ) as [trk Hm].
+  cbn [option_map].
+  match goal with |- context [move ?a ?b ?c ?d] =>
+    replace (move a b c d) with (MvOk (t_move p q x t :: rest) trk) by (symmetry; exact Hm) end.
+  reflexivity.
+Qed.
+
+(* to_path empty: the subtree is detached *)
+Theorem delete_core c t p x :
+  plain_shift c -> p <> [] -> tget t p = Some x ->
+  cs_core c [t] (0 :: p) TDel = ([t_remove p t; x], None).
+Proof.
+  intros [Hc Hmc Hml Hdc] Hp Hx. unfold cs_core, attach. rewrite Hmc, Hc, Hml, Hdc. cbn [orb andb].
+  pose proof (detach_in_tree (nroots c) t [] p x Hp Hx) as Hm.
+  match goal with |- context [move ?a ?b ?c ?d] =>
+    replace (move a b c d) with (MvOk ((t_remove p t :: []) ++ [x]) (track (0 :: p) [1])) by (symmetry; exact Hm) end.
+  reflexivity.
+Qed.
+
+Theorem delete_rows t p PX : wf_t t -> p <> [] -> tpath t p = Some PX -> rows (t_remove p t) = minus (rows t) PX.
+Proof. apply rows_t_remove. Qed.
+
+(* destination absent, its parent q present (or just created): the subtree becomes the last child of q *)
+Theorem shift_core c t p q x ks comps t1 :
+  plain_shift c ->
+  add_walk [t] [dpiece c] comps = ([t1], Ret (0 :: q)) ->
+  p <> [] -> tget t1 p = Some x -> is_prefix p q = false ->
+  fkids q (tkids t1) = Some ks -> (forall k, In k ks -> tname k <> tname x) ->
+  (exists PQ, tpath t1 q = Some PQ) ->
+  cs_core c [t] (0 :: p) (TNew comps) = ([t_move p q x t1], None).
+Proof.
+  intros Hps Hw Hp Hx Hpq Hks Hfresh HPQ. unfold cs_core. rewrite Hw.
+  rewrite (ps_mc _ Hps). eapply attach_plain_shift; eassumption.
+Qed.
+
+Theorem shift_rows t p q x PX PQ :
+  wf_t t -> p <> [] -> tget t p = Some x -> is_prefix p q = false ->
+  tpath t p = Some PX -> tpath t q = Some PQ ->
+  rows (t_move p q x t) = insert_last (minus (rows t) PX) PQ (rows_from PQ x).
+Proof. apply rows_t_move. Qed.
+
+(* ============================================================================================== *)
+(* Part 5.  add_path_to_tree: the missing prefixes of the destination parent are created           *)
+(* (Spec.ensure), existing nodes are reused, nothing else changes.                                 *)
+
+Lemma name_idx_none c ks : (forall k, In k ks -> tname k <> c) -> forall n, name_idx c n ks = [].
+Proof.
+  induction ks as [|k ks IH]; intros H n; cbn; [reflexivity|].
+  destruct (str_eqb (tname k) c) eqn:E.
+  - apply str_eqb_eq in E. exfalso. apply (H k (or_introl eq_refl)). exact E.
+  - cbn. apply IH. intros k' Hk'. apply H. right; exact Hk'.
+Qed.
+
+Lemma name_idx_spec c ks : NoDup (map tname ks) -> forall n,
+  (name_idx c n ks = [] /\ forall k, In k ks -> tname k <> c) \/
+  (exists i k, name_idx c n ks = [n + i] /\ nth_error ks i = Some k /\ tname k = c).
+Proof.
+  induction ks as [|k ks IH]; intros Hn n; cbn.
+  - left. split; [reflexivity|intros k []].
+  - cbn [map] in Hn. inversion Hn as [|? ? Hnotin Hn']; subst.
+    destruct (str_eqb (tname k) c) eqn:E.
+    + apply str_eqb_eq in E. right. exists 0, k. rewrite name_idx_none.
+      * rewrite Nat.add_0_r. split; [reflexivity|split; [reflexivity|exact E]].
+      * intros k' Hk' E'. apply Hnotin. rewrite E, <- E'. apply in_map. exact Hk'.
+    + apply str_eqb_neq in E. destruct (IH Hn' (S n)) as [[H1 H2]|[i [k' [H1 [H2 H3]]]]].
+      * left. split; [exact H1|]. intros k' [<-|Hk']; [exact E|apply H2; exact Hk'].
+      * right. exists (S i), k'. cbn. rewrite H1. replace (n + S i) with (S n + i) by lia.
+        split; [reflexivity|split; assumption].
+Qed.
+
+Lemma is_prefix_refl p : is_prefix p p = true.
+Proof. induction p as [|i p IH]; cbn; [reflexivity|]. rewrite Nat.eqb_refl. exact IH. Qed.
+
+Lemma is_prefix_app p r : is_prefix p (p ++ r) = true.
+Proof. induction p as [|i p IH]; cbn; [reflexivity|]. rewrite Nat.eqb_refl. exact IH. Qed.
+
+Lemma is_prefix_iff p z : is_prefix p z = true <-> exists r, z = p ++ r.
+Proof.
+  revert z; induction p as [|i p IH]; intros z; cbn.
+  - split; [intros _; exists z; reflexivity|reflexivity].
+  - destruct z as [|j z]; [split; [discriminate|intros [r Hr]; discriminate]|]. split.
+    + intros H. apply andb_true_iff in H as [H1 H2]. apply Nat.eqb_eq in H1. apply IH in H2 as [r ->].
+      subst. exists r. reflexivity.
+    + intros [r Hr]. inversion Hr; subst. rewrite Nat.eqb_refl. cbn. apply IH. exists r. reflexivity.
+Qed.
+
+Lemma is_prefix_trans a b c : is_prefix a b = true -> is_prefix b c = true -> is_prefix a c = true.
+Proof.
+  intros H1 H2. apply is_prefix_iff in H1 as [r1 ->]. apply is_prefix_iff in H2 as [r2 ->].
+  rewrite <- app_assoc. apply is_prefix_app.
+Qed.
+
+Lemma wf_fkids here : forall (f : forest) ks, wf_f f -> fkids here f = Some ks -> wf_f ks.
+Proof.
+  induction here as [|i here IH]; intros f ks Hwf H; cbn in H; [inversion H; subst; exact Hwf|].
+  destruct (nth_error f i) as [t|] eqn:Et; [|discriminate]. eapply IH; [|exact H].
+  apply wf_t_kids. destruct Hwf as [_ Hf]. rewrite Forall_forall in Hf. apply Hf. eapply nth_error_In. exact Et.
+Qed.
+
+Lemma fpath_snoc here : forall pre (f : forest) H ks i k,
+  fpath pre here f = Some H -> fkids here f = Some ks -> nth_error ks i = Some k ->
+  fpath pre (here ++ [i]) f = Some (H ++ [tname k]).
+Proof.
+  induction here as [|j here IH]; intros pre f H ks i k HP Hk Hi; cbn in *.
+  - inversion HP; subst. inversion Hk; subst. rewrite Hi. reflexivity.
+  - destruct (nth_error f j) as [t|]; [|discriminate]. eapply IH; eassumption.
+Qed.
+
+Lemma fget_fappend_frame here : forall z (f : forest) x s,
+  is_prefix z here = false -> fget z f = Some s -> fget z (fappend here x f) = Some s.
+Proof.
+  induction here as [|j here IH]; intros z f x s Hz Hs.
+  - destruct z as [|i z]; [discriminate|]. cbn [fappend fget] in *.
+    destruct (nth_error f i) as [t|] eqn:Et; [|discriminate].
+    rewrite nth_error_app1 by (apply nth_error_Some; congruence). rewrite Et. exact Hs.
+  - destruct z as [|i z]; [discriminate|]. rewrite is_prefix_cons in Hz. cbn [fappend fget] in *.
+    rewrite nth_error_upd_nth. destruct (Nat.eqb i j) eqn:E.
+    + cbn [andb] in Hz. destruct (nth_error f i) as [t|]; [|discriminate]. cbn [option_map].
+      destruct z as [|i' z]; [discriminate|]. rewrite tkids_set_kids. apply IH; assumption.
+    + exact Hs.
+Qed.
+
+Lemma fpath_fappend_frame here : forall z pre (f : forest) x P,
+  fpath pre z f = Some P -> fpath pre z (fappend here x f) = Some P.
+Proof.
+  induction here as [|j here IH]; intros z pre f x P HP.
+  - cbn [fappend]. revert pre f P HP. destruct z as [|i z]; intros pre f P HP; [exact HP|].
+    cbn [fpath] in *. destruct (nth_error f i) as [t|] eqn:Et; [|discriminate].
+    rewrite nth_error_app1 by (apply nth_error_Some; congruence). rewrite Et. exact HP.
+  - destruct z as [|i z]; [exact HP|]. cbn [fappend fpath] in *. rewrite nth_error_upd_nth.
+    destruct (Nat.eqb i j) eqn:E; [|exact HP].
+    destruct (nth_error f i) as [t|]; [|discriminate]. cbn [option_map].
+    rewrite tname_set_kids, tkids_set_kids. apply IH. exact HP.
+Qed.
+
+Lemma fpath_fappend_new here : forall pre (f : forest) x H ks,
+  fpath pre here f = Some H -> fkids here f = Some ks ->
+  fpath pre (here ++ [length ks]) (fappend here x f) = Some (H ++ [tname x]).
+Proof.
+  induction here as [|j here IH]; intros pre f x H ks HP Hk; cbn in *.
+  - inversion HP; subst. inversion Hk; subst. rewrite nth_error_app2 by lia. rewrite Nat.sub_diag. reflexivity.
+  - rewrite nth_error_upd_nth, Nat.eqb_refl. destruct (nth_error f j) as [t|]; [|discriminate]. cbn [option_map].
+    rewrite tname_set_kids, tkids_set_kids. apply IH; assumption.
+Qed.
+
+Lemma length_fappend here : forall (f : forest) x, here <> [] -> length (fappend here x f) = length f.
+Proof. intros f x H. destruct here; [congruence|]. cbn. apply length_upd_nth. Qed.
+
+Lemma at_path_under P r : at_path P r = true -> under P r = true.
+Proof. unfold at_path, under. intros H. apply path_eqb_eq in H. rewrite <- H. apply pfx_refl. Qed.
+
+Lemma has_app a b P : has (a ++ b) P = has a P || has b P.
+Proof. unfold has. apply existsb_app. Qed.
+
+Lemma has_filter_under tb H P : pfx H P = true -> has (filter (under H) tb) P = has tb P.
+Proof.
+  intros HP. unfold has. induction tb as [|r tb IH]; cbn; [reflexivity|].
+  destruct (under H r) eqn:E; cbn; [rewrite IH; reflexivity|]. rewrite IH.
+  destruct (at_path P r) eqn:Ea; [|reflexivity]. unfold at_path in Ea. apply path_eqb_eq in Ea.
+  unfold under in E. rewrite <- Ea in E. congruence.
+Qed.
+
+Lemma has_rows_child H k c : has (rows_from H k) (H ++ [c]) = str_eqb (tname k) c.
+Proof.
+  destruct (str_eqb (tname k) c) eqn:E.
+  - apply str_eqb_eq in E. rewrite rows_from_eq. unfold has. cbn [existsb]. unfold at_path at 1. cbn [rpath fst].
+    rewrite E, path_eqb_refl. reflexivity.
+  - apply str_eqb_neq in E. unfold has. apply existsb_false. intros r Hr.
+    destruct (at_path (H ++ [c]) r) eqn:Ea; [|reflexivity]. apply at_path_under in Ea.
+    rewrite (rows_other_not_under H k c [] r E Hr) in Ea. discriminate.
+Qed.
+
+Lemma has_frows_child H ks c : has (frows H ks) (H ++ [c]) = existsb (fun k => str_eqb (tname k) c) ks.
+Proof.
+  induction ks as [|k ks IH]; [reflexivity|]. rewrite frows_cons, has_app, has_rows_child, IH. reflexivity.
+Qed.
+
+Lemma has_child here pre (f : forest) H ks c :
+  wf_f f -> here <> [] -> fpath pre here f = Some H -> fkids here f = Some ks ->
+  has (frows pre f) (H ++ [c]) = existsb (fun k => str_eqb (tname k) c) ks.
+Proof.
+  intros Hwf Hh HP Hk. destruct (fpath_fget _ _ _ _ Hh HP) as [xh Hxh].
+  destruct (fget_rows _ _ _ _ _ Hwf Hxh HP) as [P0 [HP0 Hsub]].
+  rewrite <- (has_filter_under _ H) by apply pfx_app. unfold sub_rows in Hsub. rewrite Hsub.
+  rewrite rows_from_eq, <- HP0. unfold has. cbn [existsb]. unfold at_path at 1. cbn [rpath fst].
+  replace (path_eqb (H ++ [c]) H) with false.
+  2: { symmetry. destruct (path_eqb (H ++ [c]) H) eqn:E; [|reflexivity]. apply path_eqb_eq in E.
+       apply (f_equal (@length str)) in E. rewrite app_length in E. cbn in E. lia. }
+  cbn [orb]. rewrite fkids_fget in Hk by exact Hh. rewrite Hxh in Hk. inversion Hk; subst ks.
+  apply has_frows_child.
+Qed.
+
+Lemma existsb_name_false ks c : (forall k, In k ks -> tname k <> c) -> existsb (fun k => str_eqb (tname k) c) ks = false.
+Proof. intros H. apply existsb_false. intros k Hk. apply str_eqb_neq. apply H. exact Hk. Qed.
+
+Lemma add_walk_spec : forall comps (f : forest) here pre H,
+  wf_f f -> here <> [] -> fpath pre here f = Some H -> (forall c, In c comps -> c <> []) ->
+  exists f' q, add_walk f here comps = (f', Ret q) /\ wf_f f' /\ length f' = length f /\
+    frows pre f' = ensure (frows pre f) H comps /\ fpath pre q f' = Some (H ++ comps) /\
+    is_prefix here q = true /\
+    (forall z s, is_prefix z q = false -> fget z f = Some s -> fget z f' = Some s) /\
+    (forall z P, fpath pre z f = Some P -> fpath pre z f' = Some P).
+Proof.
+  induction comps as [|c comps IH]; intros f here pre H Hwf Hh HP Hne.
+  - exists f, here. cbn. rewrite app_nil_r. split; [reflexivity|]. split; [exact Hwf|]. split; [reflexivity|].
+    split; [reflexivity|]. split; [exact HP|]. split; [apply is_prefix_refl|]. split; auto.
+  - cbn [add_walk]. destruct (fkids_of_fpath _ _ _ _ HP) as [ks Hk]. rewrite Hk.
+    pose proof (wf_fkids _ _ _ Hwf Hk) as [Hkn Hkf].
+    assert (Hne' : forall c', In c' comps -> c' <> []) by (intros c' Hc'; apply Hne; right; exact Hc').
+    destruct (name_idx_spec c ks Hkn 0) as [[E Hfresh]|[i [k [E [Hi Hkc]]]]]; rewrite E.
+    + assert (Hc : c <> []) by (apply Hne; left; reflexivity).
+      destruct c as [|ch c]; [congruence|]. set (cn := ch :: c) in *.
+      assert (Hwf1 : wf_f (fappend here (fresh_node cn) f)).
+      { eapply wf_fappend; [exact Hwf| |exact Hh|exact Hk|exact Hfresh].
+        constructor; [constructor|constructor]. }
+      assert (HP1 : fpath pre (here ++ [length ks]) (fappend here (fresh_node cn) f) = Some (H ++ [cn])).
+      { apply (fpath_fappend_new here pre f (fresh_node cn) H ks HP Hk). }
+      assert (Hh1 : here ++ [length ks] <> []) by (destruct here; discriminate).
+      destruct (IH _ _ _ _ Hwf1 Hh1 HP1 Hne') as [f' [q [Ha [Hwf' [Hlen [Hrows [Hq [Hpre [Hfr1 Hfr2]]]]]]]]].
+      exists f', q. split; [exact Ha|]. split; [exact Hwf'|].
+      split; [rewrite Hlen; apply length_fappend; exact Hh|].
+      split.
+      * rewrite Hrows. cbn [ensure]. rewrite (has_child here pre f H ks cn Hwf Hh HP Hk).
+        rewrite existsb_name_false by exact Hfresh.
+        rewrite (frows_fappend here pre f H (fresh_node cn) Hwf Hh HP). reflexivity.
+      * split; [rewrite Hq, <- app_assoc; reflexivity|].
+        split; [eapply is_prefix_trans; [apply is_prefix_app|exact Hpre]|].
+        split.
+        -- intros z s Hz Hs. apply Hfr1; [exact Hz|]. apply fget_fappend_frame; [|exact Hs].
+           destruct (is_prefix z here) eqn:Ez; [|reflexivity].
+           rewrite (is_prefix_trans z here q Ez (is_prefix_trans _ _ _ (is_prefix_app here [length ks]) Hpre)) in Hz.
+           discriminate.
+        -- intros z P Hz. apply Hfr2. apply fpath_fappend_frame. exact Hz.
+    + cbn [Nat.add] in *.
+      assert (HP1 : fpath pre (here ++ [i]) f = Some (H ++ [c])).
+      { rewrite <- Hkc. eapply fpath_snoc; eassumption. }
+      assert (Hh1 : here ++ [i] <> []) by (destruct here; discriminate).
+      destruct (IH _ _ _ _ Hwf Hh1 HP1 Hne') as [f' [q [Ha [Hwf' [Hlen [Hrows [Hq [Hpre [Hfr1 Hfr2]]]]]]]]].
+      exists f', q. split; [exact Ha|]. split; [exact Hwf'|]. split; [exact Hlen|].
+      split.
+      * rewrite Hrows. cbn [ensure]. rewrite (has_child here pre f H ks c Hwf Hh HP Hk).
+        replace (existsb (fun k0 => str_eqb (tname k0) c) ks) with true; [reflexivity|].
+        symmetry. eapply existsb_true; [eapply nth_error_In; exact Hi|]. apply str_eqb_eq. exact Hkc.
+      * split; [rewrite Hq, <- app_assoc; reflexivity|].
+        split; [eapply is_prefix_trans; [apply is_prefix_app|exact Hpre]|].
+        split; assumption.
+Qed.
